@@ -14,6 +14,8 @@
             decimal text is parsed exactly (from_str_exact: F40); every integer hint reads a decimal as an integer (F44);
             what a name designates follows a three-level precedence: full names of named types > built-in type names >
             short names of namespaced named types (F39, F45); trailing zeroes do not make decimal text inexact (F46)
+            a decimal over a fixed registers "Decimal" below type names: the decoder names it by its fixed (F48); text that
+            is nothing but zeroes after the dot is zero, not an empty retry (F49)
   ENUMSYM   an Avro enum reaches the caller by symbol text through every hint a Rust enum / identifier / string uses
             (identifier, any, str, string), never by bare position: the serializer resolves unit variants by name
   shared    DECSCALE + FREEZEMAP (c02), SLICE / VARINT / FIXEDBUF reading primitives (c11), POOLCLEAN (c14: pooled
